@@ -740,4 +740,108 @@ theorem round_ok {a : A} {s : State} (inv : Inv cfg a s) (r : Round) (hwf : Roun
 
 end round
 
+/-! ## any history -/
+
+/-- the events the model writes in round `r` started in state `s` -/
+def roundEvents (cfg : Cfg) (s : State) (r : Round) : List Ev := (step cfg s r).out.drop s.out.length
+
+/-- the model's events, round by round -/
+def modelRounds (cfg : Cfg) : State → List Round → List (List Ev)
+  | _, [] => []
+  | s, r :: rs => roundEvents cfg s r :: modelRounds cfg (step cfg s r) rs
+
+/-- the observation the Spec is given for the model's own run: the events before the first round, then one list per round -/
+def modelObs (cfg : Cfg) (rs : List Round) : List (List Ev) := (init cfg).out :: modelRounds cfg (init cfg) rs
+
+theorem modelRounds_length (cfg : Cfg) : ∀ (s : State) (rs : List Round), (modelRounds cfg s rs).length = rs.length
+  | _, [] => rfl
+  | s, r :: rs => by simp [modelRounds, modelRounds_length cfg (step cfg s r) rs]
+
+/-- histories the generator produces -/
+def RoundsWF (rs : List Round) : Prop := ∀ r ∈ rs, RoundWF r
+
+section hist
+variable {cfg : Cfg} (ok : CfgOK cfg) (hfuel : cfg.fuel = 0) (hperm : OrdPerm cfg)
+include ok hfuel
+
+theorem step_out {a : A} {s : State} (inv : Inv cfg a s) (r : Round) (hwf : RoundWF r) :
+    ∃ evs, (step cfg s r).out = s.out ++ evs := by
+  rw [step_eq cfg s r inv.top.good.ok]
+  obtain ⟨eAcc, hPout, _, _, tP, _, _, _⟩ := pre_ok ok hfuel inv r hwf
+  obtain ⟨E1, hE1⟩ := readAll_out ok hfuel (readsS s r) (preS cfg s r) tP
+  obtain ⟨E2, hE2, _, _⟩ := (ticks_nest cfg (readAll cfg (readsS s r) (preS cfg s r))).ext
+  exact ⟨eAcc ++ (E1 ++ E2), by rw [hE2, hE1, hPout]; simp⟩
+
+/-- the initial states: nothing accepted, only the manager's own table entry -/
+theorem init_sim : Inv cfg ({} : A) (init cfg) := by
+  have t := top_init ok hfuel
+  refine ⟨?_, t, init_J cfg⟩
+  have n : Nest ({ mods := [{ uid := 0, name := "message_manager".toList.map (·.toNat), pid := cfg.mmPid, connected := true }] } : State)
+      (init cfg) := logTop_nest cfg 20 _
+  -- every table entry of `init` is the manager's own
+  have only0 : ∀ u m, (init cfg).find u = some m → u = 0 ∧ m.isLogger = false := by
+    intro u m hm
+    obtain ⟨m0, hm0, hcore⟩ := n.surv u m hm (t.aopen u m hm)
+    simp only [State.find, List.find?_cons, List.find?_nil] at hm0
+    split at hm0
+    · rename_i hu
+      cases hm0
+      exact ⟨by have : (0 : Nat) = u := by simpa using hu
+                exact this.symm, (core_fields hcore).2.2.1⟩
+    · cases hm0
+  have nolog : (init cfg).loggers = [] := List.sublist_nil.mp n.logSub
+  refine ⟨rfl, n.nuid.symm, n.fail.symm, n.buf.symm, fun u hu => ?_, fun u am m h1 _ => ?_, fun u hl => ?_, fun u m h1 h2 => ?_,
+    fun u m h1 _ => ?_, fun u m h1 h2 => ?_, by rw [nolog]; exact List.nodup_nil, fun u hu => ?_⟩
+  · constructor
+    · intro h; cases h
+    · intro h
+      obtain ⟨m, hm⟩ := Option.isSome_iff_exists.mp h
+      exact absurd (only0 u m hm).1 hu
+  · cases h1
+  · cases hl
+  · rw [(only0 u m h1).2] at h2; cases h2
+  · rw [nolog] at h1; cases h1
+  · rw [(only0 u m h1).2] at h2; cases h2
+  · rw [nolog] at hu; cases hu
+
+include hperm
+
+/-- the rounds of a history, one after the other -/
+theorem rounds_ok : ∀ (rs : List Round) (a : A) (s : State), Inv cfg a s → RoundsWF rs →
+    Inv cfg ((List.zip rs (modelRounds cfg s rs)).foldl (fun a p => Spec.round cfg a p.1 p.2) a) (rs.foldl (step cfg) s) ∧
+    (∀ p ∈ proven, Spec.NoErr p a →
+      Spec.NoErr p ((List.zip rs (modelRounds cfg s rs)).foldl (fun a p => Spec.round cfg a p.1 p.2) a))
+  | [], a, s, inv, _ => ⟨inv, fun _ _ h => h⟩
+  | r :: rs, a, s, inv, hwf => by
+    have hr : RoundWF r := hwf r (by simp)
+    obtain ⟨evs, hevs⟩ := step_out ok hfuel inv r hr
+    have hre : roundEvents cfg s r = evs := by
+      unfold roundEvents; rw [hevs, List.drop_left]
+    obtain ⟨inv1, herr1⟩ := round_ok ok hfuel hperm inv r hr evs hevs
+    obtain ⟨inv2, herr2⟩ := rounds_ok rs (Spec.round cfg a r evs) (step cfg s r) inv1 (fun x hx => hwf x (by simp [hx]))
+    simp only [modelRounds, List.zip_cons_cons, List.foldl_cons, hre]
+    exact ⟨inv2, fun p hp hn => herr2 p hp (herr1 p hp hn)⟩
+
+/-- **The model meets the Spec, for the proved properties.**  Run the model on any well-formed history, hand the Spec
+the history and the events the model wrote, round by round: the Spec's verdict contains no entry for a property in
+`proven` — and its abstract state at the end simulates the model's final state. -/
+theorem model_meets_spec_proven (rs : List Round) (hwf : RoundsWF rs) :
+    ∀ p ∈ proven, Spec.NoErr p (Spec.runSpec cfg rs (modelObs cfg rs) none) := by
+  intro p hp
+  unfold Spec.runSpec
+  simp only [modelObs, List.drop_succ_cons, List.drop_zero, List.length_cons, modelRounds_length, Option.isSome_none,
+    Bool.or_false, beq_self_eq_true]
+  have h0 : Spec.NoErr p (({} : A).chk true "C03" "the manager did not play every round of the script") := by
+    intro e he; cases he
+  obtain ⟨_, herr⟩ := rounds_ok ok hfuel hperm rs (({} : A).chk true "C03" "the manager did not play every round of the script")
+    (init cfg) (init_sim ok hfuel) hwf
+  have h1 := herr p hp h0
+  have hnot := proven_not hp
+  refine (Spec.checkNoNotice_ext cfg _ _).noErr (fun h => hnot ?_) ((Spec.checkC05_ext _ _ _).noErr (fun h => hnot ?_) h1)
+  · simp only [List.mem_singleton] at h; subst h; simp [others]
+  · simp only [List.mem_cons, List.not_mem_nil, or_false] at h
+    rcases h with h | h | h <;> subst h <;> simp [others]
+
+end hist
+
 end Pyrtma.Mgr
